@@ -168,22 +168,63 @@ HARNESSES += [
 HARNESSES += [
     {"name": "find_earliest_deadline", "props": ["C08"], "src": "h_poll.c", "contracts": ["public.h"],
      "includes": ["reproc.c"], "enforce": "find_earliest_deadline", "replace": ["now"],
-     "defs": {"POLL_find_earliest_deadline": None, "VERIF_NSRC": "2"}, "defs_thorough": {"VERIF_NSRC": "3"}, "unwind": 5,
-     "bounded": "number of poll sources <= 2 (quick) / 3 (thorough); loop over sources[] fully unrolled; everything else symbolic",
+     "defs": {"POLL_find_earliest_deadline": None, "VERIF_NSRC": "3"}, "unwind": 5,
+     "bounded": "exactly 3 poll sources, any of which may be process-less (so 0..3 effective sources in any order); loop fully unrolled; everything else symbolic",
      "what": "find_earliest_deadline against absolute deadlines: sources in any order, process-less sources and "
              "sources without deadline interleaved, shared handles allowed; expiry inlined, now by contract"},
 ]
 
 
+def poll_h(n, thorough_only=False):
+    return {"name": "reproc_poll_%d" % n, "props": ["C09", "C08", "C14", "C05", "C04"], "src": "h_poll.c",
+            "contracts": ["public.h"], "includes": ["reproc.c"], "enforce": "reproc_poll", "rec": True, "replace": ["now"],
+            "defs": {"POLL_reproc_poll": None, "VERIF_NSRC": str(n)}, "unwind": 4 * n + 2,
+            "timeout": 1500, "timeout_thorough": 7200, "thorough_only": thorough_only,
+            "bounded": "exactly %d poll source(s); loops over sources[] and pipes[] fully unrolled; interests, timeout, "
+                       "deadlines, pipe states, handle sharing, kernel answers symbolic" % n,
+            "what": "reproc_poll with %d source(s) (find_earliest_deadline, expiry, contains_valid_pipe, pipe_poll inlined; now "
+                    "by contract; self-recursive call handled by --enforce-contract-rec)" % n}
+
+
+HARNESSES += [poll_h(1), poll_h(2), poll_h(3, thorough_only=True)]
+
+
 HARNESSES += [
-    {"name": "reproc_poll", "props": ["C09", "C08", "C14", "C05", "C04"], "src": "h_poll.c", "contracts": ["public.h"],
-     "includes": ["reproc.c"], "enforce": "reproc_poll", "rec": True, "replace": ["now"],
-     "defs": {"POLL_reproc_poll": None, "VERIF_NSRC": "2"}, "defs_thorough": {"VERIF_NSRC": "3"}, "unwind": 14,
-     "timeout": 1500, "timeout_thorough": 7200,
-     "bounded": "number of poll sources <= 2 (quick) / 3 (thorough); loops over sources[] and pipes[] fully unrolled; "
-                "interests, timeout, deadlines, pipe states, kernel answers symbolic",
-     "what": "reproc_poll (find_earliest_deadline, expiry, contains_valid_pipe, pipe_poll inlined; now by contract; "
-             "self-recursive call handled by --enforce-contract-rec)"},
+    {"name": "reproc_drain", "props": ["C16", "C14"], "src": "h_drain.c", "contracts": ["public.h"],
+     "includes": ["reproc.c", "drain.c"], "replace": ["reproc_poll", "reproc_read", "now"], "loop_contracts": True,
+     "defs": {"VERIF_LOOP_CONTRACTS": None}, "unwind": 24, "enforce": None,
+     "what": "reproc_drain with its for(;;) loop closed by a loop contract over a ghost monitor of the sink protocol; "
+             "reproc_poll and reproc_read replaced by their contracts; sinks may fail at any call; any number of chunks"},
+]
+
+
+HARNESSES += [
+    {"name": "strv_concat", "props": ["C03", "C05", "C04"], "src": "h_strv.c", "contracts": ["public.h"],
+     "defs": {"STRV_concat": None, "VERIF_NVEC": "2"}, "defs_thorough": {"VERIF_NVEC": "3"}, "unwind": 8, "unwind_thorough": 10,
+     "bounded": "vectors of at most 2 (quick) / 3 (thorough) entries, strings of at most 2 characters",
+     "what": "real strv_concat and strv_free with allocation failure at every malloc: contents law, NULL only with ENOMEM, "
+             "nothing leaked on any path (CBMC leak check)"},
+    {"name": "path_is_relative", "props": ["C03"], "src": "h_path.c", "contracts": ["public.h"],
+     "includes": ["process.posix.c"], "defs": {"VERIF_PATHLEN": "4"}, "defs_thorough": {"VERIF_PATHLEN": "7"},
+     "unwind": 7, "unwind_thorough": 10,
+     "bounded": "path strings of at most 4 (quick) / 7 (thorough) characters (CBMC's strlen/strchr models unrolled)",
+     "what": "path_is_relative against the documented meaning of a relative program path"},
+]
+
+
+HARNESSES += [
+    {"name": "reproc_run_ex", "props": ["C16", "C05"], "src": "h_run.c", "contracts": [],
+     "tus": ["error.posix.c"], "defs": {"RUN_ex": None},
+     "what": "reproc_run_ex against logging executable contracts of reproc_new/start/drain/stop/destroy: fork rejected, "
+             "first failing step's error returned, else the stop result; destroy exactly once and last on every path"},
+    {"name": "reproc_run", "props": ["C16"], "src": "h_run.c", "contracts": [],
+     "tus": ["error.posix.c"], "defs": {"RUN_plain": None},
+     "what": "reproc_run: parent redirection unless discard/file/path, then as reproc_run_ex"},
+    {"name": "sink_string", "props": ["C16", "C05"], "src": "h_sink_string.c", "contracts": ["public.h"],
+     "includes": ["drain.c"], "defs": {"VERIF_SLEN": "3"}, "defs_thorough": {"VERIF_SLEN": "5"}, "unwind": 8, "unwind_thorough": 12,
+     "bounded": "previous output of at most 3 (quick) / 5 (thorough) characters, at most as many new bytes",
+     "what": "sink_string (through reproc_sink_string): appends exactly the bytes received after the previous content, "
+             "NUL-terminated; on allocation failure the previous output is untouched and still owned by the caller"},
 ]
 
 
